@@ -1,5 +1,5 @@
 (* C02 - Loading accepts exactly the well-formed boot informations. *)
-Require Import Bytes Outcome Common Mbi C02Proofs.
+Require Import Bytes Outcome Common Mbi Sparse C02Proofs SparseProofs.
 
 (* For every profile, 8-aligned address and memory content in which the header
    and the declared region are valid memory, load equals this decision rule:
@@ -29,3 +29,12 @@ Theorem C02_addresses : forall p a bs r,
   mbi_total_size m r = le (slice bs 0 4).
 Proof. exact c02_addresses. Qed.
 Print Assumptions C02_addresses.
+
+(* boot informations of sizes no list of bytes can hold: on EVERY memory of the declared size that starts with these 8
+   bytes and ends with those 8, whatever lies between, load is the closed form evaluated on the 16 bytes alone *)
+Theorem C02_load_sparse : forall p a hdr8 mid last8,
+  a mod 8 = 0 -> len hdr8 = 8 -> len last8 = 8 ->
+  le (slice hdr8 0 4) = 16 + len mid \/ (le (slice hdr8 0 4) < 16 /\ le (slice hdr8 0 4) <= 16 + len mid) ->
+  mbi_load p false {| m_base := a; m_bytes := hdr8 ++ mid ++ last8 |} = mbi_load_sparse hdr8 last8.
+Proof. exact mbi_load_sparse_ok. Qed.
+Print Assumptions C02_load_sparse.
